@@ -163,6 +163,9 @@ pub struct Exec {
     /// when set, model FEN of the server position before each step is recorded (for re-rooting)
     pub record_roots: bool,
     pub roots: Vec<Option<String>>,
+    /// census support: when a position with this key fingerprint is recorded, remember its FEN
+    pub watch_key: Option<(u64, u64)>,
+    pub watch_hit: Option<String>,
 }
 
 pub fn outcome_from_lib(r: GameResult) -> Outcome {
@@ -338,6 +341,8 @@ impl Exec {
             stamp: 0,
             record_roots: false,
             roots: vec![],
+            watch_key: None,
+            watch_hit: None,
         }
     }
 
@@ -675,6 +680,9 @@ impl Exec {
                 }
             }
             self.stats.keys.push((kfp, fp64b(&kb), b.get_hash()));
+            if self.watch_key == Some((kfp, fp64b(&kb))) && self.watch_hit.is_none() {
+                self.watch_hit = Some(p.fen_ep_if_beside());
+            }
             self.eval(kfp ^ fp64(path.as_bytes()), path != "incremental");
         }
         if self.on(17) {
